@@ -3,3 +3,5 @@
 set -e
 cd "$(dirname "$0")/.."
 /venv/bin/python tools/extract_log.py
+/venv/bin/python tools/extract_recv.py
+/venv/bin/python tools/extract_crypto.py --repo "${VERIF_REPO:-/repo}" --out lean/AQ/Gen/CryptoTables.lean
